@@ -50,8 +50,8 @@ func init() {
 	fw.Children["c15"] = c15Child
 }
 
-var e32 = []uint32{0, 1, 2, 1<<31 - 1, 1 << 31, 1<<32 - 1, 357913942, 357913943}
-var e64 = []uint64{0, 1, 2, 1<<31 - 1, 1 << 31, 1<<32 - 1, 1<<32 + 1, 768614336404564651, 1537228672809129302, 1<<63 - 1, 1 << 63, 1<<64 - 1}
+var e32 = []uint32{0, 1, 2, 3, 6, 7, 8, 9, 1<<31 - 1, 1 << 31, 1<<32 - 1, 357913942, 357913943}
+var e64 = []uint64{0, 1, 2, 357913942, 357913943, 0x15555556, 0x2aaaaaab, 1<<31 - 1, 1 << 31, 1<<32 - 1, 1<<32 + 1, 768614336404564651, 1537228672809129302, 1<<63 - 1, 1 << 63, 1<<64 - 1}
 
 func c15Enum(thorough bool, f func(k c15Case)) {
 	emit := func(target string, b []byte) { f(c15Case{Target: target, Data: hexs(b)}) }
@@ -89,9 +89,9 @@ func c15Enum(thorough bool, f func(k c15Case)) {
 	}
 	// (2) structured mutations
 	var headers [][]byte
-	for _, tag := range []string{"L5", "L6", "L9"} {
+	for i, tag := range []string{"L5", "L6", "L9"} {
 		ld := LayoutByTag(tag)
-		headers = append(headers, wsp.Layout{Archs: ld.Archs, Method: 2, XFF: 0.5}.EncodeHeader())
+		headers = append(headers, wsp.Layout{Archs: ld.Archs, Method: []uint32{2, 5, 1}[i], XFF: 0.5}.EncodeHeader())
 	}
 	series := func(from, until, step uint32, n int) []byte {
 		b := binary.BigEndian.AppendUint32(nil, from)
@@ -171,12 +171,25 @@ func c15Enum(thorough bool, f func(k c15Case)) {
 			if bl < 0 {
 				continue
 			}
-			b := append(append([]byte{}, hdr...), make([]byte, bl)...)
-			// a little garbage in the body so that base intervals are not all zero
-			for i := len(hdr); i+12 <= len(b); i += 36 {
-				binary.BigEndian.PutUint32(b[i:], 1699999990)
+			// bodies: a few plausible intervals; intervals that are no multiple of any step (a damaged base interval); all ones
+			for variant := 0; variant < 3; variant++ {
+				b := append(append([]byte{}, hdr...), make([]byte, bl)...)
+				for i := len(hdr); i+12 <= len(b); i += 12 {
+					switch {
+					case variant == 0 && (i-len(hdr))%36 == 0:
+						binary.BigEndian.PutUint32(b[i:], 1699999990)
+					case variant == 1:
+						binary.BigEndian.PutUint32(b[i:], uint32(1699999991+7*((i-len(hdr))/12)))
+					case variant == 2:
+						binary.BigEndian.PutUint32(b[i:], 0xffffffff)
+						binary.BigEndian.PutUint64(b[i+4:], 0xffffffffffffffff)
+					}
+				}
+				emit("open", b)
+				if bl < 12 {
+					break
+				}
 			}
-			emit("open", b)
 		}
 	}
 	for _, h := range headers {
@@ -191,6 +204,26 @@ func c15Enum(thorough bool, f func(k c15Case)) {
 		}
 		mutate32("Header", h, len(h)/4, asFile)
 		asFile(h)
+		// an intact header over a body whose intervals sit at every offset around the clock (damaged base intervals)
+		decl := bodyLens(h)[3]
+		for delta := -9; delta <= 9; delta++ {
+			for _, firstOnly := range []bool{false, true} {
+				b := append(append([]byte{}, h...), make([]byte, decl)...)
+				k := (len(h) - 16) / 12
+				for a := 0; a < k; a++ {
+					off := int(binary.BigEndian.Uint32(h[16+12*a:]))
+					n := int(binary.BigEndian.Uint32(h[16+12*a+8:]))
+					for j := 0; j < n; j++ {
+						if firstOnly && j > 0 {
+							break
+						}
+						binary.BigEndian.PutUint32(b[off+12*j:], uint32(1700000000+delta))
+						binary.BigEndian.PutUint64(b[off+12*j+4:], math.Float64bits(1.5))
+					}
+				}
+				emit("open", b)
+			}
+		}
 	}
 	ts := series(1699999990, 1700000000, 2, 5)
 	flipsAndCuts("TimeSeries", ts)
@@ -305,12 +338,26 @@ func c15RunCase(dir string, stub *c15Stub, k c15Case) (class string, alloc uint6
 				db.FetchFromArchive(id, 0, now, now)
 				db.FetchFromArchive(id, now-10, now, now)
 				db.FetchFromArchive(id, now, now, now)
+				for k := wt.Timestamp(0); k < 10; k++ {
+					db.FetchFromArchive(id, now-k, now-k, now)
+					db.FetchFromArchive(id, now-k-1, now-k, now)
+				}
+				db.FetchFromArchive(id, now-7, now-2, now)
 				if id >= 0 {
 					db.GetAllRawUnsortedPoints(id)
 				}
 			}
 			db.UpdatePointForArchive(-1, now, 1, now)
 			db.UpdatePointsForArchive([]wt.Point{{Time: now, Value: 1}, {Time: now - 1, Value: 2}}, -1, now)
+			var dense []wt.Point
+			for d := 0; d < 20; d++ {
+				dense = append(dense, wt.Point{Time: now - wt.Timestamp(d), Value: wt.Value(d)})
+			}
+			db.UpdatePointsForArchive(dense, -1, now)
+			for id := 0; id < n && id < 6; id++ {
+				db.UpdatePointForArchive(id, now-1, 3, now)
+				db.FetchFromArchive(id, 0, now, now)
+			}
 			db.Sync()
 		case "remote-view", "remote-view-raw":
 			if stub == nil {
